@@ -6,6 +6,7 @@ import (
 	"net"
 	"sync"
 	"sync/atomic"
+	"time"
 )
 
 // Proxy is a loopback TCP forwarder placed between two daemons' backends. It can be cut
@@ -23,6 +24,7 @@ type Proxy struct {
 	Conns  atomic.Int64
 	keep   bool
 	buf    bytes.Buffer
+	burst  atomic.Int64
 }
 
 // NewProxy listens on a fresh loopback port and forwards to target.
@@ -70,8 +72,39 @@ func (p *Proxy) accept() {
 	}
 }
 
+// SetBurst makes the proxy a bursty link: bytes are held back and forwarded only at ticks d apart (everything that
+// arrived since the last tick goes out back to back). 0 switches it off. Applies to connections made afterwards.
+func (p *Proxy) SetBurst(d time.Duration) { p.burst.Store(int64(d)) }
+
 func (p *Proxy) pipe(a, b net.Conn) {
 	buf := make([]byte, 32768)
+	burst := time.Duration(p.burst.Load())
+	var pmu sync.Mutex
+	var pending []byte
+	stop := make(chan struct{})
+	if burst > 0 {
+		go func() {
+			t := time.NewTicker(burst)
+			defer t.Stop()
+			for {
+				select {
+				case <-stop:
+					return
+				case <-t.C:
+					pmu.Lock()
+					out := pending
+					pending = nil
+					pmu.Unlock()
+					if len(out) > 0 {
+						if _, werr := b.Write(out); werr != nil {
+							a.Close()
+							return
+						}
+					}
+				}
+			}
+		}()
+	}
 	for {
 		n, err := a.Read(buf)
 		if n > 0 {
@@ -81,7 +114,11 @@ func (p *Proxy) pipe(a, b net.Conn) {
 				p.buf.Write(buf[:n])
 				p.mu.Unlock()
 			}
-			if _, werr := b.Write(buf[:n]); werr != nil {
+			if burst > 0 {
+				pmu.Lock()
+				pending = append(pending, buf[:n]...)
+				pmu.Unlock()
+			} else if _, werr := b.Write(buf[:n]); werr != nil {
 				break
 			}
 		}
@@ -89,6 +126,7 @@ func (p *Proxy) pipe(a, b net.Conn) {
 			break
 		}
 	}
+	close(stop)
 	a.Close()
 	b.Close()
 	p.mu.Lock()
